@@ -282,6 +282,15 @@ fn verify_crash(run: &Run, scen: &Value, scen_path: &str, pre_dir: &str, job: &J
 				}
 			}
 		}
+		// (4a) observation: does re-delivering the interrupted input ALONE already converge?
+		{
+			let r0 = catch(|| run_op(&chain, &h, &scen["op"]));
+			let st0 = state_json(&chain, &h);
+			let twin = &scen["twin_state"];
+			let alone = r0.is_ok() && st0["head"] == twin["head"] && st0["digest"] == twin["digest"];
+			let where_ = if head.last_block_h == old_head { "old_head" } else if head.last_block_h == new_head { "new_head" } else { "ancestor" };
+			run.count(&format!("redelivery_of_the_input_alone.{}.reopened_at_{}.{}", name.split(':').last().unwrap_or(""), where_, if alone { "converged" } else { "did_not_converge" }), 1);
+		}
 		// (4) re-delivery as a syncing peer would do it: blocks of the accepted chain above the
 		// reopened head, then the interrupted input
 		let path = h.ledger.ancestry(&old_head);
